@@ -123,6 +123,24 @@ def check_form(year, form_name):
     return obs
 
 
+SOLVER_LABELS = ('internal-assertion', 'abort-only', 'no-internal-error', 'propagated-exception', 'subset')
+
+
+def solver_side(tier, seed):
+    """Mechanisms 2 and 3 of the property (solver.py): an unknown input name loads the named form's inputs and retries, an unknown
+    line name adds the named form and asserts the line now exists.  Obligations of the real _attempt_field / _add_form:
+    the assertion fires only for a line no form declares, the abort only for an absent form or undeclared input."""
+    from . import solver_props as sp
+    from . import solver_units as su
+    obs = []
+    for u in ('_attempt_field', '_add_form', '_add_form[input_only]'):
+        for o in sp.unit_runner(u):
+            label = o.id.split('/', 1)[1]
+            if label.startswith('_add_form') or any(k in label for k in SOLVER_LABELS):
+                obs.append(o)
+    return su.finish_with_refutation('C10', obs, lambda o: True, seed, tier)
+
+
 def run(tier, seed, t0):
     tasks = []
     functions = set()
@@ -135,10 +153,12 @@ def run(tier, seed, t0):
             for fld in form.fields():
                 fn = extract.line_function(fld)
                 functions.add(f'{fn.__code__.co_filename.split("habutax/")[-1]}:{fn.__code__.co_firstlineno}')
+    tasks.append(Task('C10/solver', solver_side, tier, seed, weight=30))
     obs = oblig.run_tasks(tasks)
-    return oblig.finish('C10', tier, seed, obs, t0, functions=[f'{len(functions)} line functions (all lines of all forms, 2021-2023)'] + sorted(functions)[:40],
+    return oblig.finish('C10', tier, seed, obs, t0, functions=[f'{len(functions)} line functions (all lines of all forms, 2021-2023)', 'solver.py:Solver._attempt_field', 'solver.py:Solver._add_form', 'solver.py:Solver._add_input_spec'] + sorted(functions)[:40],
                         trusted_base=base.TRUSTED,
                         assumptions=base.assumptions('A-PY', 'A-READ', 'A-SIGMA', 'A-BUILTIN', 'A-ENUM') + [
                             'frozen deliberately-absent form list contracts/absent_forms.py',
-                            'numbered input forms (w-2, 1098, 1099-*) accept every non-negative instance number'],
+                            'numbered input forms (w-2, 1098, 1099-*) accept every non-negative instance number',
+                            'solver side: contracts/core/solver.py (line oracle, A-CAT catalogue predicates); unbounded recursion through the retry after loading an input declaration is excluded by the strictly growing input map only for a finite catalogue'],
                         checker_cmd='./check C10', min_obligations=1500)
